@@ -362,9 +362,81 @@ def analyse_mode(ctx, repo, noncorr: bool):
                     construct="sparse_count_matrix[el1, el2] += 1", witness="guards on the path: " + ("; ".join(vstr(c) for c in guard_conds) or "none"))
 
 
+def stride_after_filter(ctx, repo):
+    """STRIDE: the non-overlapping windows sit at positions k = 0, tau, 2*tau, ... of the TRAJECTORY.  A stride applied to the
+    output of a generator that drops elements (a yield under an `if`) counts surviving windows instead of positions: after the
+    first dropped (NaN) window every later window is at the wrong k."""
+    import ast
+    mod = repo.module("molgri.molecules.transitions")
+    gens = {}
+    for name, f in mod.functions.items():
+        ys = [y for y in ast.walk(f.node) if isinstance(y, (ast.Yield, ast.YieldFrom))]
+        if ys:
+            filtered = False
+            for y in ys:
+                p_ = getattr(y, "_parent", None)
+                while p_ is not None and p_ is not f.node:
+                    if isinstance(p_, ast.If):
+                        filtered = True
+                    p_ = getattr(p_, "_parent", None)
+            gens[name.split(".")[-1]] = filtered
+    # functions that merely return such a generator
+    changed = True
+    while changed:
+        changed = False
+        for name, f in mod.functions.items():
+            nm = name.split(".")[-1]
+            if nm in gens:
+                continue
+            rets = [r.value for r in ast.walk(f.node) if isinstance(r, ast.Return) and r.value is not None]
+            if len(rets) == 1 and isinstance(rets[0], ast.Call) and isinstance(rets[0].func, ast.Name) and rets[0].func.id in gens:
+                gens[nm] = gens[rets[0].func.id]
+                changed = True
+    ctx.instance("ORD", len(gens) + 1)
+    scope = [f for n_, f in mod.functions.items() if n_.split(".")[-1] in ("window", "noncorr_window")] + \
+        [m for c in mod.classes.values() if c.name == "MSM" for m in c.methods.values()]
+    bad = []
+    for f in scope:
+        from ..astutil import Canon
+        cn = Canon(Canon.single_defs(f.node.body))
+
+        def filtered_gen(e, depth=0):
+            e = cn.expand(e) if depth == 0 else e
+            for c_ in ast.walk(e):
+                if isinstance(c_, ast.Call) and isinstance(c_.func, ast.Name) and gens.get(c_.func.id):
+                    return c_.func.id
+            return None
+        for n in ast.walk(f.node):
+            if isinstance(n, ast.Call) and src_(n.func).split(".")[-1] == "islice":
+                step = n.args[3] if len(n.args) >= 4 else None
+                if step is not None and not (isinstance(step, ast.Constant) and step.value in (1, None)):
+                    g = filtered_gen(n.args[0])
+                    if g:
+                        bad.append((f, n, g))
+            elif isinstance(n, ast.Subscript) and isinstance(n.slice, ast.Slice) and n.slice.step is not None and \
+                    not (isinstance(n.slice.step, ast.Constant) and n.slice.step.value in (1, None)):
+                g = filtered_gen(n.value)
+                if g and isinstance(cn.expand(n.value), ast.Call):
+                    bad.append((f, n, g))
+    for f, n, g in bad:
+        ctx.violate("ORD", "C12.noncorrelated.stride", f"a stride is applied to the OUTPUT of `{g}`, which drops windows that contain NaN: the "
+                    "stride then counts surviving windows, not trajectory positions, so after the first dropped window the non-overlapping "
+                    "windows are no longer at k = 0, tau, 2*tau, ...", f.where, src_(n)[:160],
+                    witness="x = [0, 1, nan, 3, 4, 5, 6], tau = 2: windows kept start at k = 0, 3 (not 0, 2, 4)")
+    if not bad:
+        ctx.ok("ORD", "C12.noncorrelated.stride", "no stride is applied to the output of a filtering window generator (the stride is the step of "
+               "the position loop)", "molgri/molecules/transitions.py:noncorr_window")
+
+
+def src_(n):
+    import ast
+    return ast.unparse(n)
+
+
 def run(ctx, repo, tier):
     for noncorr in (False, True):
         analyse_mode(ctx, repo, noncorr)
+    stride_after_filter(ctx, repo)
     # get_all_tau_transition_matrices forwards the mode flag unchanged
     fa = repo.func("molgri.molecules.transitions", "MSM.get_all_tau_transition_matrices")
     ctx.analysed(fa)
